@@ -24,7 +24,7 @@ STORE_ASSUME = [
 
 PROPS_ADD = {
     "C24": {
-        "engine": "storesim", "level": "exploration", "budget": {"quick": 20, "thorough": 600},
+        "engine": "storesim", "level": "exploration", "budget": {"quick": 18, "thorough": 600},
         "title": "Splits and merges keep regions a partition with increasing epochs",
         "technique": "deterministic simulation: seeded sequences of ProposeSplit / ProposeMerge / peer stop + RemoveRegion / ticks / store restart against one real store whose "
                      "admin commands commit through real single-voter raft groups; state-based oracle on the store's region catalog and region hooks after every step",
@@ -41,7 +41,7 @@ PROPS_ADD = {
         "design_ref": "7/C24", "assumptions": STORE_ASSUME,
     },
     "C25": {
-        "engine": "storesim", "level": "exploration", "budget": {"quick": 20, "thorough": 600},
+        "engine": "storesim", "level": "exploration", "budget": {"quick": 18, "thorough": 600},
         "title": "Commands only execute against the region that owns their keys",
         "technique": "deterministic simulation: every command kind with keys at every position relative to the region's current boundaries and every epoch relation, through "
                      "Store.ProposeCommand / Store.ReadCommand of one real store, interleaved with real splits and merges that move ranges and epochs",
@@ -58,7 +58,7 @@ PROPS_ADD = {
         "design_ref": "7/C25", "assumptions": STORE_ASSUME,
     },
     "C26": {
-        "engine": "storesim", "level": "exploration", "budget": {"quick": 15, "thorough": 600},
+        "engine": "storesim", "level": "exploration", "budget": {"quick": 10, "thorough": 600},
         "title": "PD routes every key to the unique region containing it",
         "technique": "deterministic simulation: seeded sequences of RegionHeartbeat / RemoveRegion / GetRegionByKey / restart against the real PD service with file-backed storage, "
                      "compared step by step with a reference list-of-regions model",
